@@ -13,7 +13,7 @@ def reset(tag):
     COUNTER[tag] = 0
 
 
-class RecordingRegressor(BaseEstimator, RegressorMixin):
+class RecordingRegressor(RegressorMixin, BaseEstimator):
     """Tabular / time-series regressor stub: logs fit(X, y) and predict(X); the k-th predict
     call returns the token 100000 + 100*k + j for output column j."""
 
@@ -158,3 +158,115 @@ def make_identity_transformer():
             return check_series(Z).copy()
 
     return IdentityTransformer
+
+
+def decode_chain(v):
+    """Value (1000+t)*10^m + chain digits -> (t, [digits]) (or None)."""
+    s = str(int(round(v)))
+    if abs(v - round(v)) > 1e-6 or len(s) < 4 or not s[:2] == "10":
+        return None
+    return int(s[:4]) - 1000, [int(c) for c in s[4:]]
+
+
+def make_compose_stubs():
+    """Leaf forecaster and tagging transformer for C09.  All events go to LOG["c09"] in call order."""
+    import pandas as pd
+    from sktime.forecasting.base._sktime import _SktimeForecaster, _OptionalForecastingHorizonMixin
+    from sktime.transformations.base import _SeriesToSeriesTransformer
+    from sktime.utils.validation.series import check_series
+    T = "c09"
+
+    def ev(**k):
+        LOG.setdefault(T, []).append(k)
+
+    def rep_of(y):
+        d = [decode_chain(v) for v in y.values]
+        if not d or any(x is None for x in d) or any(x[1] != d[0][1] for x in d) or \
+                [x[0] for x in d] != [int(i) for i in y.index]:
+            return [-1]
+        return d[0][1]
+
+    class Leaf(_OptionalForecastingHorizonMixin, _SktimeForecaster):
+        def __init__(self, id=1):
+            self.id = id
+            super(Leaf, self).__init__()
+
+        def fit(self, y, X=None, fh=None):
+            self._set_y_X(y, X)
+            self._set_fh(fh)
+            self._chain = rep_of(y)
+            ev(ev="fit", who=self.id, rep=self._chain, lo=int(y.index[0]), hi=int(y.index[-1]), upd=False)
+            self._is_fitted = True
+            return self
+
+        def update(self, y, X=None, update_params=True):
+            self.check_is_fitted()
+            self._update_y_X(y, X)
+            ev(ev="update", who=self.id, rep=rep_of(y), lo=int(y.index[0]), hi=int(y.index[-1]),
+               upd=bool(update_params))
+            return self
+
+        def _predict(self, fh, X=None, return_pred_int=False, alpha=0.05):
+            c = int(self.cutoff)
+            idx = fh.to_absolute(self.cutoff).to_pandas()
+            ev(ev="predict", who=self.id, rep=[], lo=c, hi=c, upd=False)
+            vals = []
+            for i in range(len(idx)):
+                v = 500000 + 10000 * self.id + 100 * (c % 100) + (i + 1)
+                for d in self._chain:      # forecasts live in the representation of the training data
+                    v = 10 * v + d
+                vals.append(float(v))
+            return pd.Series(vals, index=idx)
+
+    class Tag(_SeriesToSeriesTransformer):
+        _tags = {"transform-returns-same-time-index": True, "univariate-only": True}
+
+        def __init__(self, k=1):
+            self.k = k
+            super(Tag, self).__init__()
+
+        def fit(self, Z, X=None):
+            z = check_series(Z)
+            ev(ev="tfit", who=self.k, rep=rep_of(z), lo=int(z.index[0]), hi=int(z.index[-1]), upd=False)
+            self._is_fitted = True
+            return self
+
+        def transform(self, Z, X=None):
+            self.check_is_fitted()
+            z = check_series(Z)
+            ev(ev="ttransform", who=self.k, rep=rep_of(z), lo=int(z.index[0]), hi=int(z.index[-1]), upd=False)
+            return z * 10.0 + self.k
+
+        def inverse_transform(self, Z, X=None):
+            self.check_is_fitted()
+            z = check_series(Z)
+            ev(ev="tinverse", who=self.k, rep=[], lo=0, hi=0, upd=False)
+            return (z - self.k) / 10.0
+
+        def update(self, Z, X=None, update_params=False):
+            self.check_is_fitted()
+            z = check_series(Z)
+            ev(ev="tupdate", who=self.k, rep=rep_of(z), lo=int(z.index[0]), hi=int(z.index[-1]),
+               upd=bool(update_params))
+            return self
+
+    class SkipTag(Tag):
+        _tags = {"transform-returns-same-time-index": True, "univariate-only": True,
+                 "skip-inverse-transform": True}
+
+    class MetaRegressor(RecordingRegressor):
+        def fit(self, X, y):
+            super().fit(X, y)
+            e = LOG[self.tag].pop()
+            ev(ev="mfit", who=0, rep=[], lo=0, hi=0, upd=False,
+               x=[[int(round(v)) for v in r] for r in e["X"]], y=[int(round(r[0])) for r in e["y"]])
+            return self
+
+        def predict(self, X):
+            super().predict(X)
+            e = LOG[self.tag].pop()
+            ev(ev="mpredict", who=0, rep=[], lo=0, hi=0, upd=False,
+               x=[[int(round(v)) for v in r] for r in e["X"]], y=[])
+            return np.full(len(e["X"]), 100100.0)   # constant token: applying the composite stays pure
+
+    return Leaf, Tag, SkipTag, MetaRegressor
